@@ -738,7 +738,7 @@ func TestC09_GridOffsets(t *testing.T) {
 
 // hostileValues: what an attribute or a text node that code may read as a number, a time, a URI or a flag can hold.
 var hostileValues = []string{"", " ", "-1", "-0", "+1", "-2147483649", "2147483648", "-9223372036854775808", "9223372036854775807", "4611686018427387904", "99999999999999999999",
-	"1e9", "0x7fffffff", "NaN", "true", "1", "2.0", "urn:x", "0001-01-01T00:00:00Z", "9999-12-31T23:59:59Z", "2030-03-01T12:00:00+99:99", strings.Repeat("9", 400), strings.Repeat("A", 9000)}
+	"1e9", "0x7fffffff", "NaN", "true", "1", "2.0", "urn:x", "010", "\u023a#", "\u023a\u023a\u023a\u023a\u023a#sha1", "http://www.w3.org/2000/09/xmldsig/\u023a\u023a\u023a\u023a\u023a\u023a\u023a#sha256", "\u0130\u1e9e\u01c5\ufb01#", "http://www.w3.org/2001/04/xmlenc#SHA256", "0001-01-01T00:00:00Z", "9999-12-31T23:59:59Z", "2030-03-01T12:00:00+99:99", strings.Repeat("9", 400), strings.Repeat("A", 9000)}
 
 // richBases: unsigned messages that carry EVERY optional element and attribute the decoders know.
 func richBases() []*etree.Document {
@@ -774,6 +774,20 @@ func richBases() []*etree.Document {
 		d.SetRoot(r)
 		docs = append(docs, d)
 	}
+	// docs[3], docs[4]: an unsigned Response whose signed assertion travels encrypted, with every optional part of
+	// the encryption markup (explicit digest, named recipient; key in-line / detached)
+	for _, detached := range []bool{false, true} {
+		ge := gridGenuine(sp, 1, "assertions")
+		rc := h.CertRef{Key: "E1", Window: "wide"}
+		ge.Enc = []*h.EncSpec{{DataAlg: h.DataAlgs[3], Transport: h.Transports[1], Digest: types.MethodSHA256, Detached: detached, To: rc, Recipient: &rc, Key: make([]byte, h.KeyLen(h.DataAlgs[3])), IV: make([]byte, 16)}}
+		re, err := ge.Tree()
+		if err != nil {
+			panic(err)
+		}
+		de := etree.NewDocument()
+		de.SetRoot(re)
+		docs = append(docs, de)
+	}
 	return docs
 }
 
@@ -793,12 +807,27 @@ func TestC09_GridValues(t *testing.T) {
 		walk(base.Root())
 		emit := func(kind string, i int) {
 			s, _ := base.WriteToString()
-			for _, cfg := range []int{3, 5, 1}[:2+i%2] {
+			cfgs := []int{3, 5, 1}[:2+i%2]
+			if bi >= 3 {
+				cfgs = []int{1, 2, 6}[:1+i%3] // decryption happens only with signature checking on (and a key)
+			}
+			for _, cfg := range cfgs {
 				cases = append(cases, C09Case{Kind: kind, Cfg: cfg, Input: base64.StdEncoding.EncodeToString([]byte(s)), Stage: fmt.Sprintf("base%d", bi)})
 			}
 		}
 		n := 0
+		inEncrypted := func(e *etree.Element) bool {
+			for p := e; p != nil; p = p.Parent() {
+				if p.Tag == "EncryptedAssertion" {
+					return true
+				}
+			}
+			return false
+		}
 		for _, e := range els {
+			if bi >= 3 && !inEncrypted(e) {
+				continue // the envelope is that of base 0
+			}
 			for ai := range e.Attr {
 				if e.Attr[ai].Space == "xmlns" || e.Attr[ai].Key == "xmlns" {
 					continue
